@@ -22,7 +22,7 @@ TRUSTED = [
     "ground axiom instances for sqrt, cbrt, pow, exp, ln, sin, cos, atan2, hypot (true facts about the real functions; listed per obligation in the SMT files under .build/smt)",
 ]
 M1 = ("M1: machine arithmetic is treated as real arithmetic - no rounding, NaN, infinities, subnormals, signed zero; "
-      "decimal constants are read as the simplest rational within half an ulp of their f64 value (0.04045 is 809/20000, 1.0/1.055 is 200/211), "
+      "decimal constants are read as the simplest rational within 4 ulp of their f64 value (0.04045 is 809/20000, 1.0/1.055 is 200/211), "
       "f64 pi is the real pi, exponents within one ulp of a small rational are that rational")
 
 UF = {"sqrt", "cbrt", "exp", "ln", "sin", "cos", "tan", "asin", "acos", "atan", "atan2", "hypot", "pow"}
@@ -65,13 +65,38 @@ def idealise(m, e):
         a = abs(v)
         k = a.numerator.bit_length() - a.denominator.bit_length()
         if F(2) ** k > a: k -= 1
-        half = F(2) ** (k - 53)
+        # constants such as `0.055 / 1.055` are computed in f64 from rounded operands: up to a few ulp away
+        # from the intended rational, so the window is 4 ulp (relative 9e-16)
+        half = F(2) ** (k - 50)
         r = simplest_between(v - half, v + half)
         # keep exact dyadics (small denominators) as they are
         if v.denominator <= (1 << 20):
             r = v
     _ideal_cache[key] = r
     return r
+
+
+_root_cache = {}
+
+
+def root_bracket(theta, num, den):
+    """rational (lo, hi) with lo < theta^(num/den) < hi, hi - lo ~ 1e-13 relative; verified exactly"""
+    key = (theta, num, den)
+    if key in _root_cache: return _root_cache[key]
+    try:
+        r = float(theta) ** (num / den)
+    except Exception:
+        return None
+    if not (r > 0) or r == float("inf"): return None
+    res = None
+    for rel in (1e-13, 1e-11, 1e-9):
+        lo = F(r * (1 - rel)).limit_denominator(10 ** 18)
+        hi = F(r * (1 + rel)).limit_denominator(10 ** 18)
+        # lo^den < theta^num < hi^den
+        if lo > 0 and lo ** den < theta ** num < hi ** den:
+            res = (lo, hi); break
+    _root_cache[key] = res
+    return res
 
 
 def rat(fr):
@@ -91,6 +116,7 @@ class Ctx:
         self.cache = {}
         self.uf_apps = {}     # id -> (kind, args)
         self.consts = {}
+        self.lemmas = {}      # floor/ceil/round node id -> proven constant value (SMT text)
 
     def const_value(self, i):
         n = self.nodes[i]
@@ -110,6 +136,9 @@ class Ctx:
         if i in self.cache: return self.cache[i]
         n = self.nodes[i]
         k = n[0]
+        if i in self.lemmas:
+            self.cache[i] = self.lemmas[i]
+            return self.lemmas[i]
         if k == "var": s = "v_" + re.sub(r"[^A-Za-z0-9_]", "_", n[1])
         elif k == "const": s = rat(idealise(int(n[1]), n[2]))
         elif k == "pi": s = "PI"
@@ -245,17 +274,36 @@ class Ctx:
                         ax.append("(=> (and (>= %s 0.0) (<= %s 1.0)) (<= %s 1.0))" % (b, b, u))
                         ax.append("(=> (>= %s 1.0) (>= %s 1.0))" % (b, u))
                     p, q = e.numerator, e.denominator
-                    if 0 < p <= 6 and q <= 6:
+                    if 0 < p <= 6 and q <= 6 and False:
+                        pass
+                    if 0 < p <= 3 and q <= 3:
                         ax.append("(=> (>= %s 0.0) (= %s %s))" % (b, " ".join(["(*"] + [u] * q) + ")" if q > 1 else u,
                                                                " ".join(["(*"] + [b] * p) + ")" if p > 1 else b))
-                    # nested powers: pow(pow(x,a),e) = pow(x, a*e); = x when a*e == 1
-                    inner = self.nodes[ids[0]]
-                    if inner[0] == "pow":
-                        a = self.const_value(inner[2])
-                        if a is not None:
-                            x = self.t(inner[1])
-                            if a * e == 1:
-                                ax.append("(=> (>= %s 0.0) (= %s %s))" % (x, u, x))
+                    # inverse exponents: pow(pow(x,a), 1/a) = x for x >= 0 - ground instance for every pair of
+                    # occurrences, matched semantically (the solver shows base == inner power by linear arithmetic)
+                    for i2, (k2, ids2, args2) in sorted(apps.items()):
+                        if k2 != "pow" or i2 == i: continue
+                        a = self.const_value(ids2[1])
+                        if a is not None and a * e == 1:
+                            ax.append("(=> (and (>= %s 0.0) (= %s u%d)) (= %s %s))" % (args2[0], b, i2, u, args2[0]))
+        # numeric brackets: a comparison of (an affine function of) a power / root with a constant is decided by
+        # comparing the base with a rational bracket of the exact root (verified in exact integer arithmetic)
+        for (theta, ufid) in self.thresholds():
+            k, ids, args = apps[ufid]
+            u = "u%d" % ufid
+            if k == "cbrt":
+                ax.append("(and (= (< %s %s) (< %s %s)) (= (> %s %s) (> %s %s)))" % (u, rat(theta), args[0], rat(theta ** 3), u, rat(theta), args[0], rat(theta ** 3)))
+            elif k == "sqrt" and theta >= 0:
+                ax.append("(=> (>= %s 0.0) (and (= (< %s %s) (< %s %s)) (= (> %s %s) (> %s %s))))" % (args[0], u, rat(theta), args[0], rat(theta ** 2), u, rat(theta), args[0], rat(theta ** 2)))
+            elif k == "pow":
+                e = self.const_value(ids[1])
+                if e is None or e <= 0 or theta <= 0: continue
+                pq = (e.numerator, e.denominator)
+                br = root_bracket(theta, pq[1], pq[0])     # rho = theta^(q/p)
+                if br is None: continue
+                lo, hi = br
+                ax.append("(=> (and (>= %s 0.0) (<= %s %s)) (< %s %s))" % (args[0], args[0], rat(lo), u, rat(theta)))
+                ax.append("(=> (>= %s %s) (> %s %s))" % (args[0], rat(hi), u, rat(theta)))
         # same sine/cosine argument: sin^2 + cos^2 = 1
         for (i, ids, args) in by_kind.get("sin", []):
             for (j, ids2, args2) in by_kind.get("cos", []):
@@ -302,6 +350,48 @@ class Ctx:
             decl.append("(declare-const h%d Real)" % i)
             ax.append("(and (>= h%d 0.0) (= (* h%d h%d) (+ (* %s %s) (* %s %s))))" % (i, i, i, xv, xv, yv, yv))
         return decl, ax
+
+    def affine_leaves(self, i, depth=0):
+        """[(alpha, uf node id, beta)] for the ite-leaves of node i that are affine in exactly one UF application"""
+        n = self.nodes[i]
+        k = n[0]
+        if depth > 12: return []
+        if k == "ite":
+            return self.affine_leaves(n[2], depth + 1) + self.affine_leaves(n[3], depth + 1)
+        if k in ("min", "max"):
+            return self.affine_leaves(n[1], depth + 1) + self.affine_leaves(n[2], depth + 1)
+        if k in UF:
+            return [(F(1), i, F(0))]
+        if k == "neg":
+            return [(-a, u, -b) for a, u, b in self.affine_leaves(n[1], depth + 1)]
+        if k in ("add", "sub", "mul", "div"):
+            cl, cr = self.const_value(n[1]), self.const_value(n[2])
+            if cr is not None and cl is None:
+                L = self.affine_leaves(n[1], depth + 1)
+                if k == "add": return [(a, u, b + cr) for a, u, b in L]
+                if k == "sub": return [(a, u, b - cr) for a, u, b in L]
+                if k == "mul": return [(a * cr, u, b * cr) for a, u, b in L]
+                if k == "div" and cr != 0: return [(a / cr, u, b / cr) for a, u, b in L]
+            if cl is not None and cr is None:
+                R = self.affine_leaves(n[2], depth + 1)
+                if k == "add": return [(a, u, b + cl) for a, u, b in R]
+                if k == "sub": return [(-a, u, cl - b) for a, u, b in R]
+                if k == "mul": return [(a * cl, u, b * cl) for a, u, b in R]
+        return []
+
+    def thresholds(self):
+        """{(theta, uf id)}: constants a power/root application is (affinely) compared with somewhere in the query"""
+        out = set()
+        for i in list(self.cache.keys()):
+            n = self.nodes[i]
+            if n[0] not in ("lt", "le", "eq"): continue
+            for a, b in ((n[1], n[2]), (n[2], n[1])):
+                K = self.const_value(a)
+                if K is None: continue
+                for alpha, uf, beta in self.affine_leaves(b):
+                    if alpha != 0 and uf in self.uf_apps:
+                        out.add(((K - beta) / alpha, uf))
+        return sorted(out)
 
     def premises(self):
         rec = self.rec
@@ -440,6 +530,28 @@ def check_path(prop, prog, meta, rec, timeout):
     if v == "unsat":
         return [], {"feasible": False, "path": base}
     feasible_known = (v == "sat")
+    # 0b. integer-part lemmas: floor/ceil/round of a term that provably stays within one integer cell on this
+    # path is replaced by that constant (each lemma is itself discharged: premises => k <= t < k+1)
+    lemma_notes = []
+    for i in sorted(ctx.reach(roots)):
+        n = ctx.nodes[i]
+        if n[0] not in ("floor", "ceil", "round"): continue
+        if ctx.const_value(n[1]) is not None: continue
+        arg = ctx.t(n[1])
+        for kk in (0, 1, -1, 2, -2, 3, -3, 4, 5, 6):
+            if n[0] == "floor": cell = "(and (<= %d.0 %s) (< %s %d.0))" % (kk, arg, arg, kk + 1) if kk >= 0 else "(and (<= (- %d.0) %s) (< %s (- %d.0)))" % (-kk, arg, arg, -kk - 1) if kk < -1 else "(and (<= (- 1.0) %s) (< %s 0.0))" % (arg, arg)
+            elif n[0] == "ceil": cell = "(and (< %s %s) (<= %s %s))" % (rat(F(kk - 1)), arg, arg, rat(F(kk)))
+            else: cell = "(and (<= %s %s) (< %s %s))" % (rat(F(kk) - F(1, 2)), arg, arg, rat(F(kk) + F(1, 2)))
+            vv, sv, dtv, outv, qp = solve(ctx.query(cell), timeout=min(timeout, 5), tag=base + ".lemma.n%d.k%d" % (i, kk))
+            if vv == "unsat":
+                ctx.lemmas[i] = rat(F(kk))
+                ctx.cache = {}; ctx.uf_apps = {}
+                for r in roots: ctx.t(r)
+                for c in rec["assumes"]: ctx.t(c)
+                lemma_notes.append("n%d:%s=%d" % (i, n[0], kk))
+                break
+            if vv != "sat":
+                break
     # 1. definedness
     dgoals = ctx.definedness([c for _, c in goals] + [c for _, c in rec["outputs"]])
     items = [("ensure." + n, ctx.t(c), True) for n, c in goals] + [(n, c, False) for n, c in dgoals]
